@@ -25,3 +25,21 @@ pub fn opt<T>(o: Option<T>, f: impl FnOnce(T) -> Value) -> Value {
 pub fn mk_date(n: i64) -> NaiveDate { NaiveDate::from_num_days_from_ce_opt(n as i32).unwrap() }
 pub fn mk_time(secs: u32, frac: u32) -> NaiveTime { NaiveTime::from_num_seconds_from_midnight_opt(secs, frac).unwrap() }
 pub fn ymd(d: NaiveDate) -> (i32, u32, u32) { (d.year(), d.month(), d.day()) }
+
+use chrono::TimeDelta;
+pub const NS: i128 = 1_000_000_000;
+/// A duration is its exact nanosecond count.
+pub fn dur_ns(d: TimeDelta) -> i128 { d.num_seconds() as i128 * NS + d.subsec_nanos() as i128 }
+pub fn dur(d: TimeDelta) -> Value { crate::big::big(dur_ns(d)) }
+pub fn mk_dur(ns: i128) -> Option<TimeDelta> {
+    let s = ns.div_euclid(NS);
+    if s < i64::MIN as i128 || s > i64::MAX as i128 { return None; }
+    TimeDelta::new(s as i64, ns.rem_euclid(NS) as u32)
+}
+/// (2^63 - 1) ms in ns
+pub const DUR_LIM: i128 = (i64::MAX as i128) * 1_000_000;
+/// any [secs, frac] with frac < 2*10^9, leap representation on arbitrary seconds included
+pub fn mk_time_any(secs: u32, frac: u32) -> NaiveTime {
+    NaiveTime::from_num_seconds_from_midnight_opt(secs, 0).unwrap().with_nanosecond(frac).unwrap()
+}
+pub fn mk_ndt(n: i64, secs: u32, frac: u32) -> NaiveDateTime { mk_date(n).and_time(mk_time_any(secs, frac)) }
